@@ -211,7 +211,7 @@ class C05(Check):
             "with priority/once/weak/by-name/autoBind, unsubscribe in all 5 argument forms, raise in instance/class form with and without error "
             "suppression, clear, count, removeListeners, autoBind with method-name prefixes, owner collection also from inside handlers; every op names its source) + per-handler scripts (event.halt assignment, nested actions "
             "on any source, return value); corpus = hand-written seeds + every history of <= 3 ops (at least one subscribe and one raise) over a "
-            "14-op alphabet under 8 script profiles; generated = random histories of 3..80 ops with random scripts (thorough: + every 4-op history "
+            "14-op alphabet under 9 script profiles (one raising non-Exception exceptions); generated = random histories of 3..80 ops with random scripts (thorough: + every 4-op history "
             "under one profile); non-trivial = some delivery invoked >= 2 handlers or a handler performed a nested action")
     coverage_cases = 400
 
@@ -1076,6 +1076,7 @@ class C05(Check):
             [(1, [sc([(rme(2), False), (add(0, 2, 7), True)], ret="false")])],
             [(1, [sc(ret="exc", e="other")]), (2, [sc([(R(0, "cls", True), False)])])],
             [(1, [sc([(R(1), False), (add(2, 3), False)], halt=True)]), (2, [sc([(add(0, 1, 9), False)], ret="tup1", h=False)])],
+            [(1, [sc(ret="exc", e="base", v=2), sc(ret="exc", e="base", v=3)]), (2, [sc([(R(0, "cls", True), False)], ret="exc", e="base", v=0)])],
         ]
 
     def exhaustive(self, maxlen, profiles=None):
